@@ -93,7 +93,8 @@ def cli_states(f):
     if f["kind"] == "flag":
         st += [("valid", [True], [[]], True), ("twice", [True, True], [[], []], True)]
     elif f["kind"] == "list":
-        st += [("valid", [["a"]], [["a"]], True), ("valid2", [["b_.*"], ["12"]], [["b_.*"], ["12"]], True)]
+        st += [("valid", [["a"]], [["a"]], True), ("valid2", [["b_.*"], ["12"]], [["b_.*"], ["12"]], True),
+               ("valid-empty-item", [[""]], [[""]], True)]
     elif f["doc_type"] == "int":
         good = [c for c in (f["choices"] or [5, 0, 12, -5]) if c != f["default"]] or [f["default"]]
         st += [("valid", [good[0]], [[str(good[0])]], True),
@@ -104,11 +105,15 @@ def cli_states(f):
         else:
             st.append(("valid-default", [f["default"]], [[str(f["default"])]], True))
             st.append(("valid-neg", [-5], [["-5"]], True))
+        if 0 in (f["choices"] or [0]) and f["default"] != 0 and good[0] != 0:
+            st.append(("valid-zero", [0], [["0"]], True))
     else:
         good = [c for c in (f["choices"] or ["zed"]) if c != f["default"]]
         st += [("valid", [good[0]], [[good[0]]], True),
                ("twice", [good[-1], good[0]], [[good[-1]], [good[0]]], True),
                ("out-of-choice", ["bogus"], [["bogus"]], False)]
+        if f["choices"] and "" not in f["choices"]:
+            st.append(("out-of-choice-empty", [""], [[""]], False))
     return st
 
 
@@ -117,12 +122,13 @@ def toml_states(f):
     st = [("absent", ABSENT, True)]
     if f["kind"] == "flag":
         st += [("valid", True, True), ("valid-false", False, True),
-               ("invalid-type:int", 1, False), ("invalid-type:str", "yes", False), ("invalid-type:list", ["a"], False)]
+               ("invalid-type:int", 1, False), ("invalid-type:str", "yes", False), ("invalid-type:list", ["a"], False),
+               ("invalid-type:int-zero", 0, False), ("invalid-type:empty-str", "", False), ("invalid-type:empty-list", [], False)]
     elif f["kind"] == "list":
         st += [("valid", ["m\\.n", "zed"], True), ("valid-empty", [], True), ("valid-numeric-text", ["12"], True),
                ("invalid-type:str", "a", False), ("invalid-type:list-int", ["a", 1], False),
                ("invalid-type:bool", True, False), ("invalid-type:table", {"k": 1}, False),
-               ("valid-dash", ["-x"], True)]
+               ("valid-dash", ["-x"], True), ("valid-empty-item", [""], True), ("valid-empty-and-more", ["", "zed"], True)]
     elif f["doc_type"] == "int":
         good = [c for c in (f["choices"] or [3, 0, 9]) if c != f["default"]]
         st += [("valid", good[-1], True), ("invalid-type:str", "2", False), ("invalid-type:float", 1.5, False),
@@ -132,10 +138,19 @@ def toml_states(f):
             st += [("out-of-choice", 7, False), ("out-of-choice-neg", -1, False)]
         else:
             st += [("valid-neg", -5, True), ("valid-default", f["default"], True)]
+        # falsy but meaningful: 0 where it is a legal, non-default value
+        if 0 in (f["choices"] or [0]) and f["default"] != 0:
+            st.append(("valid-zero", 0, True))
+        st += [("invalid-type:float-zero", 0.0, False), ("invalid-type:empty-str", "", False),
+               ("invalid-type:empty-list", [], False)]
     else:
         good = [c for c in (f["choices"] or ["zed"]) if c != f["default"]]
         st += [("valid", good[-1], True), ("out-of-choice", "bogus", False),
-               ("invalid-type:int", 3, False), ("invalid-type:bool", True, False), ("invalid-type:list", ["all"], False)]
+               ("invalid-type:int", 3, False), ("invalid-type:bool", True, False), ("invalid-type:list", ["all"], False),
+               ("invalid-type:int-zero", 0, False), ("invalid-type:bool-false", False, False),
+               ("invalid-type:empty-list", [], False)]
+        if f["choices"] and "" not in f["choices"]:
+            st.append(("out-of-choice-empty", "", False))   # "" is a str, but not one of the choices
     return st
 
 
@@ -153,6 +168,9 @@ ENVS = [  # (mode, cfile, layout)
     ("files", "exists", "vcs-shadow"), ("files", "exists", "vcs"), ("files", "missing", "vcs"),
     ("files", "none", "vcs"), ("dict", "missing", "vcs"),
 ]
+
+
+VISIBLE_ENVS = [e for e in ENVS if e[0] == "dict" or e[1] == "exists" or e[2] in ("cwd", "parent")]
 
 
 # ------------------------------------------------------------------ cases
@@ -243,6 +261,10 @@ def toml_text(conf, broken=None):
         return "[tool.rattr\nthreshold = \n"
     if broken == "no-table":
         return "[tool.other]\nthreshold = 3\n"
+    if broken == "no-tool":
+        return "[project]\nname = \"x\"\n"
+    if broken == "empty-file":
+        return ""
     lines = ["[project]", 'name = "x"', "", "[tool.rattr]"]
     for k, v in conf:
         lines.append(f"{k} = {toml_value(v)}")
@@ -280,7 +302,7 @@ def enc_file(conf, broken):
         return None
     if broken == "syntax":
         return "decode"
-    if broken == "no-table":
+    if broken in ("no-table", "no-tool", "empty-file"):
         return []
     return enc_conf(conf)
 
@@ -668,7 +690,9 @@ def build_cases(facts, tier, rng):
     k = 0
     for f in documented:
         for c, t in itertools.product(cs[f["dest"]], ts[f["dest"]]):
-            envs = ENVS if tier == "thorough" else [ENVS[k % len(ENVS)]]
+            # quick: one environment per combination; a given TOML value always goes somewhere it is READ
+            pool = ENVS if t[1] is ABSENT else VISIBLE_ENVS
+            envs = ENVS if tier == "thorough" else [pool[k % len(pool)]]
             k += 1
             for env in envs:
                 if env[0] == "dict" and t[1] is ABSENT:
@@ -676,7 +700,7 @@ def build_cases(facts, tier, rng):
                 cases.append(make_case(facts, {f["dest"]: (c, t)}, env, rng, decoy=decoy_for([f["dest"]])))
     # (b) pairs of options
     red_c = lambda f: [s for s in cs[f["dest"]] if s[0] in ("absent", "valid", "invalid-type", "out-of-choice")]  # noqa: E731
-    red_t = lambda f: [s for s in ts[f["dest"]] if s[0] in ("absent", "valid", "valid-false", "invalid-type:str", "invalid-type:bool-false", "out-of-choice")]  # noqa: E731
+    red_t = lambda f: [s for s in ts[f["dest"]] if s[0] in ("absent", "valid", "valid-false", "valid-zero", "invalid-type:str", "invalid-type:bool-false", "out-of-choice", "out-of-choice-empty")]  # noqa: E731
     for f, g in itertools.combinations(documented, 2):
         combos = list(itertools.product(red_c(f), red_t(f), red_c(g), red_t(g)))
         if tier == "quick":
@@ -698,6 +722,27 @@ def build_cases(facts, tier, rng):
                     env = ("files",) + env[1:]
                 cases.append(make_case(facts, {f["dest"]: s for f, s in zip(tri, states)}, env, rng,
                                        decoy=decoy_for([f["dest"] for f in tri])))
+    # (e) source selection: an EXISTING -c file is the source even when it says nothing (empty
+    # [tool.rattr], no [tool.rattr], no [tool], empty file) while the project's pyproject.toml sets
+    # options; a MISSING -c file / no -c leaves the project's pyproject.toml as the source.
+    for f in documented:
+        absent = {f["dest"]: (cs[f["dest"]][0], ts[f["dest"]][0])}
+        valid_t = next(s for s in ts[f["dest"]] if s[0] == "valid")
+        for layout in ("cwd", "parent"):
+            for variant in (None, "no-table", "no-tool", "empty-file"):
+                cases.append(make_case(facts, absent, ("files", "exists", layout), rng,
+                                       decoy=decoy_for([f["dest"]]), broken=variant))
+            for cfile in ("missing", "none"):
+                cases.append(make_case(facts, {f["dest"]: (cs[f["dest"]][0], valid_t)}, ("files", cfile, layout), rng))
+        # a pyproject.toml ABOVE the project root (cwd has a VCS marker) is not the project's
+        for cfile in ("missing", "none"):
+            cases.append(make_case(facts, {f["dest"]: (cs[f["dest"]][0], valid_t)}, ("files", cfile, "vcs-shadow"), rng))
+    for layout in ("cwd", "parent"):
+        for variant in (None, "no-table", "no-tool", "empty-file"):
+            other = rng.choice(documented)
+            cases.append(make_case(facts, {other["dest"]: (cs[other["dest"]][1], ts[other["dest"]][0])},
+                                   ("files", "exists", layout), rng,
+                                   decoy=decoy_for([f["dest"] for f in documented]), broken=variant))
     # (d) random many-option cases, unknown keys, broken files, structural command-line mistakes
     n_rand = 150 if tier == "quick" else 3000
     for i in range(n_rand):
@@ -715,7 +760,7 @@ def build_cases(facts, tier, rng):
             unknown = [UNKNOWN_KEYS[0]]
         broken = None
         if env[0] == "files" and rng.random() < 0.06:
-            broken = rng.choice(["syntax", "no-table"])
+            broken = rng.choice(["syntax", "no-table", "no-tool", "empty-file"])
         case = make_case(facts, assign, env, rng, decoy=decoy_for(list(assign)), unknown=unknown, broken=broken,
                          eoe=rng.random() < 0.15)
         cases.append(case)
@@ -743,7 +788,7 @@ def cli_sample(facts, rng, tier):
     out = []
     for dest in ("threshold", "_follow_imports_level", "_warning_level", "is_strict", "_excluded_names", "stdout"):
         for t in ts[dest]:
-            if not t[2] and (tier == "thorough" or t[0] in ("invalid-type:str", "invalid-type:int", "out-of-choice", "invalid-type:bool-false", "invalid-type:float")):
+            if not t[2] and (tier == "thorough" or t[0] in ("invalid-type:str", "invalid-type:int", "out-of-choice", "out-of-choice-empty", "invalid-type:bool-false", "invalid-type:float")):
                 out.append(make_case(facts, {dest: (cs[dest][0], t)}, rng.choice([ENVS[1], ENVS[2]]), rng))
     out.append(make_case(facts, {}, ENVS[1], rng, broken="syntax"))
     out.append(make_case(facts, {}, ENVS[2], rng, broken="syntax"))
@@ -792,6 +837,8 @@ def run(tier, seed, build):
         dead = probe_dead_keys(facts, dirs, flag2dest, random.Random(0))
         res.extra["documented_toml_keys_without_effect"] = dead
         cases = build_cases(facts, tier, rng)
+        sample_all = cli_sample(facts, rng, tier)
+        cases = cases + sample_all
         kept = []
         for c in cases:
             if in_fragment(c, flags):
@@ -859,7 +906,7 @@ def run(tier, seed, build):
                                        "spec": {d: s for d, s in spec.items() if d in case["intent"]}})
 
         # ---- real CLI sample: invalid TOML must end in a diagnostic; valid mixes must show the effective values
-        sample = [c for c in cli_sample(facts, rng, tier) if in_fragment(c, flags)]
+        sample = [c for c in sample_all if in_fragment(c, flags)]
         mouts = model.batch([("cli_merge", model_payload(c, facts)) for c in sample])
 
         def one(c):
